@@ -26,6 +26,7 @@ import (
 	"strconv"
 	"strings"
 	"testing"
+	"unicode/utf8"
 
 	"github.com/itchyny/gojq"
 	"pgregory.net/rapid"
@@ -188,6 +189,77 @@ type cliCase struct {
 	// Files, when present, are the input sources given as arguments after the
 	// query (written into a scratch directory); Docs/Tail above stay empty.
 	Files []fileSpec `json:"files,omitempty"`
+	// Lines / NoNL: the content of standard input under -R (Docs/Tail empty).
+	Lines []lineSpec `json:"lines,omitempty"`
+	NoNL  bool       `json:"nonl,omitempty"`
+}
+
+// lineSpec is one line of a raw (-R) input: a literal text, or a generated
+// non-periodic text of N bytes (a running counter, so that bytes moved within
+// the line show).
+type lineSpec struct {
+	Text  string `json:"text,omitempty"`
+	Style string `json:"style,omitempty"` // "" (Text) | counter | mb (multi-byte runes between the numbers) | nul (NUL between the numbers)
+	N     int    `json:"n,omitempty"`     // length in bytes (a multi-byte rune cut by it is dropped)
+	Pad   int    `json:"pad,omitempty"`   // 0..3 leading bytes to shift the multi-byte runes across the buffer boundary
+	Start int    `json:"start,omitempty"` // first number
+	CR    bool   `json:"cr,omitempty"`    // a carriage return at the end of the line
+}
+
+var mbRunes = []rune{'é', '☃', '😀', 'ß', '漢'}
+
+func (l lineSpec) build() string {
+	s := l.Text
+	if l.Style != "" {
+		var b strings.Builder
+		b.WriteString("xyz"[:min(max(l.Pad, 0), 3)])
+		for i := 0; b.Len() < l.N; i++ {
+			switch l.Style {
+			case "mb":
+				b.WriteRune(mbRunes[(l.Start+i)%len(mbRunes)])
+			case "nul":
+				b.WriteByte(0)
+			default:
+				b.WriteByte(';')
+			}
+			fmt.Fprintf(&b, "%05d", l.Start+i)
+		}
+		s = b.String()[:max(l.N, 0)]
+		for len(s) > 0 && !utf8.ValidString(s) {
+			s = s[:len(s)-1]
+		}
+	}
+	if l.CR {
+		s += "\r"
+	}
+	return s
+}
+
+// rawText: the lines, each followed by a line feed, the last one only unless noNL.
+func rawText(lines []lineSpec, noNL bool) []byte {
+	var b bytes.Buffer
+	for i, l := range lines {
+		b.WriteString(l.build())
+		if i < len(lines)-1 || !noNL {
+			b.WriteByte('\n')
+		}
+	}
+	return b.Bytes()
+}
+
+// rawLines is the documented reading of a raw input: the text is cut after
+// every line feed, the line feed itself is dropped (a carriage return before
+// it stays), and a last piece without line feed counts unless it is empty.
+func rawLines(content []byte) []any {
+	var out []any
+	parts := strings.Split(string(content), "\n")
+	for i, p := range parts {
+		if i == len(parts)-1 && p == "" {
+			break
+		}
+		out = append(out, p)
+	}
+	return out
 }
 
 // fileSpec is one input source named on the command line.
@@ -197,6 +269,9 @@ type fileSpec struct {
 	Sep  string   `json:"sep,omitempty"`
 	Tail string   `json:"tail,omitempty"`
 	End  string   `json:"end,omitempty"`
+	// under -R instead of Docs/Tail:
+	Lines []lineSpec `json:"lines,omitempty"`
+	NoNL  bool       `json:"nonl,omitempty"`
 }
 
 func (c cliCase) fileNames() []string {
@@ -287,8 +362,8 @@ func (c cliCase) stdin() []byte {
 // the forms the generators produce
 
 type opts struct {
-	raw, join, raw0, compact, tab, exit, null, slurp, stream, yaml bool
-	indent                                                         *int
+	raw, join, raw0, compact, tab, exit, null, slurp, stream, yaml, rawIn bool
+	indent                                                                *int
 }
 
 var longBool = map[string]func(*opts){
@@ -302,16 +377,17 @@ var longBool = map[string]func(*opts){
 	"slurp":          func(o *opts) { o.slurp = true },
 	"stream":         func(o *opts) { o.stream = true },
 	"yaml-input":     func(o *opts) { o.yaml = true },
+	"raw-input":      func(o *opts) { o.rawIn = true },
 }
 
-var shortBool = map[byte]string{'r': "raw-output", 'j': "join-output", 'c': "compact-output", 'e': "exit-status", 'n': "null-input", 's': "slurp"}
+var shortBool = map[byte]string{'r': "raw-output", 'j': "join-output", 'c': "compact-output", 'e': "exit-status", 'n': "null-input", 's': "slurp", 'R': "raw-input"}
 
 // flags the command has but this model does not cover: a case using one of
 // them is a harness error, not a verdict.
-var otherLong = map[string]bool{"yaml-output": true, "color-output": true, "monochrome-output": true, "raw-input": true,
+var otherLong = map[string]bool{"yaml-output": true, "color-output": true, "monochrome-output": true,
 	"from-file": true, "library-path": true, "arg": true, "argjson": true, "slurpfile": true, "rawfile": true,
 	"args": true, "jsonargs": true, "version": true, "help": true}
-var otherShort = "CMRfLvh"
+var otherShort = "CMfLvh"
 
 // parseArgs returns the options, the positional arguments, whether the
 // argument list is a usage error, and a non-empty string when the list uses a
@@ -975,8 +1051,8 @@ func judge(c cliCase) verdict {
 			return bad("NUL in an argument")
 		}
 	}
-	if o.yaml && o.stream {
-		return bad("--yaml-input together with --stream is outside the model")
+	if o.yaml && o.stream || o.rawIn && (o.yaml || o.stream) {
+		return bad("two input formats at once are outside the model")
 	}
 	// the input sources
 	type source struct {
@@ -987,12 +1063,12 @@ func judge(c cliCase) verdict {
 	}
 	var srcs []source
 	if len(c.Files) == 0 {
-		srcs = []source{{spec: fileSpec{Kind: "stdin", Docs: c.Docs, Sep: c.Sep, Tail: c.Tail, End: c.End}}}
+		srcs = []source{{spec: fileSpec{Kind: "stdin", Docs: c.Docs, Sep: c.Sep, Tail: c.Tail, End: c.End, Lines: c.Lines, NoNL: c.NoNL}}}
 		if len(rest) > 1 {
 			return bad("file arguments that are not listed in the case")
 		}
 	} else {
-		if len(c.Docs) > 0 || c.Tail != "" || c.NoQ {
+		if len(c.Docs) > 0 || c.Tail != "" || c.NoQ || len(c.Lines) > 0 {
 			return bad("a case with file arguments keeps its documents in the file list and has a query")
 		}
 		names := c.fileNames()
@@ -1024,6 +1100,20 @@ func judge(c cliCase) verdict {
 		sp := srcs[i].spec
 		if !isSpace(sp.Sep) || !isSpace(sp.End) {
 			return bad("separator is not white space")
+		}
+		if o.rawIn && (len(sp.Docs) > 0 || sp.Tail != "") || !o.rawIn && len(sp.Lines) > 0 {
+			return bad("documents belong to the JSON/YAML formats, lines to -R")
+		}
+		if o.rawIn {
+			srcs[i].content = rawText(sp.Lines, sp.NoNL)
+			srcs[i].vals = rawLines(srcs[i].content)
+			if sp.Kind == "stdin" {
+				input = srcs[i].content
+			}
+			if sp.Kind == "missing" && i < len(srcs)-1 {
+				fileErrEarly = true
+			}
+			continue
 		}
 		for _, d := range sp.Docs {
 			v, err := parseDoc(d)
@@ -1107,7 +1197,23 @@ func judge(c cliCase) verdict {
 				units = append(units, tailError{})
 			}
 		}
-		st := newStream(o, units)
+		mkStream := func() *stream { return newStream(o, units) }
+		if o.rawIn && o.slurp { // -R -s: the text of all sources as one string
+			var all strings.Builder
+			units = []any{nil}
+			for _, src := range srcs {
+				if src.spec.Kind == "missing" {
+					units[0] = tailError{}
+					break
+				}
+				all.Write(src.content)
+			}
+			if units[0] == nil {
+				units[0] = all.String()
+			}
+			mkStream = func() *stream { return &stream{items: append([]any{}, units...)} }
+		}
+		st := mkStream()
 		code, err := gojq.Compile(q, gojq.WithInputIter(st),
 			gojq.WithFunction("debug", 0, 0, func(v any, _ []any) any { st.debug(v); return v }),
 			gojq.WithFunction("stderr", 0, 0, func(v any, _ []any) any { st.stderr(v); return v }))
@@ -1125,7 +1231,7 @@ func judge(c cliCase) verdict {
 			return verdict{discard: exp.harness, o: o, exp: exp}
 		}
 		if c.Items != nil && len(rest) >= 1 && rest[0] == c.Text {
-			st2 := newStream(o, units)
+			st2 := mkStream()
 			alg := loop(o, st2, algRunner(c.Items, st2))
 			var d string
 			switch {
@@ -1282,7 +1388,31 @@ func do(sub string, c cliCase) string {
 		if e.diags > 1 {
 			rec.Class("event/several-diagnostics")
 		}
-		if len(c.Files) > 0 {
+		if o.rawIn {
+			all := append([]lineSpec{}, c.Lines...)
+			for _, f := range c.Files {
+				all = append(all, f.Lines...)
+			}
+			longest := 0
+			for _, l := range all {
+				longest = max(longest, len(l.build()))
+			}
+			size := "<=4096"
+			switch {
+			case longest > 65536:
+				size = ">65536"
+			case longest > 8192:
+				size = ">8192"
+			case longest > 4096:
+				size = ">4096"
+			}
+			rec.Class(fmt.Sprintf("raw-input/longest-line%s,files=%t,n=%t,s=%t", size, len(c.Files) > 0, o.null, o.slurp))
+			if longest > 4096 && !o.slurp && e.outputs > 0 {
+				key, _ := json.Marshal([]any{c.Lines, c.NoNL, c.Files})
+				rec.NT(fmt.Sprintf("%q|%s", c.argv(), key))
+				rec.Class("nontrivial")
+			}
+		} else if len(c.Files) > 0 {
 			mode := "json"
 			if o.yaml {
 				mode = "yaml"
@@ -1291,7 +1421,8 @@ func do(sub string, c cliCase) string {
 			}
 			rec.Class(fmt.Sprintf("files/%s,n=%t,s=%t,error-before-last-file=%t", mode, o.null, o.slurp, e.fileErrEarly))
 			if e.fileErrEarly {
-				rec.NT(fmt.Sprintf("%q|%q", c.argv(), c.Files))
+				key, _ := json.Marshal(c.Files)
+				rec.NT(fmt.Sprintf("%q|%s", c.argv(), key))
 				rec.Class("nontrivial")
 			}
 		} else if o.stream {
@@ -1309,7 +1440,14 @@ func do(sub string, c cliCase) string {
 		rec.Class("exit/" + strconv.Itoa(e.exit))
 	}
 	in := string(c.stdin())
+	if len(c.Lines) > 0 {
+		in = clip(string(rawText(c.Lines, c.NoNL)))
+	}
 	for i, f := range c.Files {
+		if len(f.Lines) > 0 {
+			in += fmt.Sprintf("[%s %s: %q] ", f.Kind, c.fileNames()[i], clip(string(rawText(f.Lines, f.NoNL))))
+			continue
+		}
 		in += fmt.Sprintf("[%s %s: %q tail %q] ", f.Kind, c.fileNames()[i], f.Docs, f.Tail)
 	}
 	rec.Sample(map[string]any{"argv": c.argv(), "stdin": clip(in), "exit": e.exit, "stdout": clip(string(e.stdout))})
@@ -1822,6 +1960,110 @@ streamSets:
 	runFixed(jsonSets, jsonModes)
 	runFixed(yamlSets, yamlModes)
 	rec.Exhaustive(fmt.Sprintf("file arguments: %d JSON sets x %d modes, %d YAML sets x %d modes", len(jsonSets), len(jsonModes), len(yamlSets), len(yamlModes)), complete)
+
+	// (E4) -R: lines whose lengths lie around the reader's buffer sizes, with
+	// non-periodic content, mixed with short ones
+	rawLens := []int{0, 1, 4095, 4096, 4097, 8191, 8192, 8193, 12289, 16385, 70000}
+	rawStyles := []lineSpec{{Style: "counter"}, {Style: "mb", Pad: 1}, {Style: "mb", Pad: 2}, {Style: "nul"}, {Style: "counter", CR: true}, {Style: "mb", Pad: 3, CR: true}}
+	type rmode struct {
+		pre   []string
+		text  string
+		files bool
+	}
+	rawModes := []rmode{{[]string{"-R", "-c"}, `.`, false}, {[]string{"-r", "--raw-input"}, `.`, false}, {[]string{"-Rj"}, `., length`, false},
+		{[]string{"-nR", "-c"}, `[inputs]`, false}, {[]string{"-n", "-R", "-r"}, `inputs`, false}, {[]string{"-R", "-c"}, `[., length]`, true},
+		{[]string{"-R", "-s", "-c"}, `.`, false}, {[]string{"-cR"}, `., input`, false}, {[]string{"-rR", "-s"}, `.`, true}}
+	complete = true
+	for li, n := range rawLens {
+		for si, st := range rawStyles {
+			for mi, m := range rawModes {
+				idx++
+				if !rec.Mine(idx) || !rec.Thorough() && (li+si+mi)%2 != 0 {
+					continue
+				}
+				long, other := st, rawStyles[(si+1)%len(rawStyles)]
+				long.N, long.Start = n, 10*li+si
+				other.N, other.Start = rawLens[(li+3)%len(rawLens)], 7
+				lines := []lineSpec{{Text: "ab"}, long, {Text: ""}, other, {Text: "last"}}
+				c := cliCase{Pre: m.pre, Text: m.text, Docs: []string{}}
+				if m.files {
+					c.Files = []fileSpec{{Kind: "file", Lines: lines[:2], NoNL: mi%2 == 0}, {Kind: "file", Lines: lines[2:], NoNL: si%2 == 0}}
+				} else {
+					c.Lines, c.NoNL = lines, (li+si)%2 == 0
+				}
+				if msg := do("raw-fixed", c); msg != "" {
+					rec.Direct("raw-fixed", c, "%s", msg)
+					complete = false
+				}
+			}
+		}
+	}
+	if rec.Thorough() {
+		rec.Exhaustive(fmt.Sprintf("-R: %d line lengths x %d contents x %d modes", len(rawLens), len(rawStyles), len(rawModes)), complete)
+	}
+
+	// -R / --raw-input / -nR with input(s) / over files; -R -s as control
+	rec.Rapid(t, "raw-long", rec.Scale(1500, 40000), func(t *rapid.T) {
+		genLine := func() lineSpec {
+			switch rapid.IntRange(0, 9).Draw(t, "linekind") {
+			case 0, 1, 2:
+				return lineSpec{Text: strings.ReplaceAll(gen.Str(8).Draw(t, "text"), "\n", "/"), CR: rapid.IntRange(0, 5).Draw(t, "cr") == 0}
+			case 3:
+				return lineSpec{}
+			}
+			base := rapid.SampledFrom([]int{4096, 4096, 8192, 12288, 16384, 65536, 70000, 1, 300}).Draw(t, "base")
+			return lineSpec{Style: rapid.SampledFrom([]string{"counter", "mb", "mb", "nul"}).Draw(t, "style"),
+				N:     max(0, base+rapid.IntRange(-3, 3).Draw(t, "delta")),
+				Pad:   rapid.IntRange(0, 3).Draw(t, "pad"),
+				Start: rapid.IntRange(0, 5000).Draw(t, "start"),
+				CR:    rapid.IntRange(0, 5).Draw(t, "cr") == 0}
+		}
+		genLines := func() ([]lineSpec, bool) {
+			n := rapid.IntRange(0, 5).Draw(t, "lines")
+			ls := make([]lineSpec, n)
+			for i := range ls {
+				ls[i] = genLine()
+			}
+			return ls, rapid.Bool().Draw(t, "nonl")
+		}
+		c := cliCase{Docs: []string{}}
+		if rapid.IntRange(0, 3).Draw(t, "files") == 0 {
+			nf := rapid.IntRange(1, 3).Draw(t, "nfiles")
+			stdinUsed := false
+			for i := 0; i < nf; i++ {
+				f := fileSpec{Kind: "file"}
+				switch k := rapid.IntRange(0, 9).Draw(t, "kind"); {
+				case k == 0:
+					f.Kind = "missing"
+				case k == 1 && !stdinUsed:
+					f.Kind, stdinUsed = "stdin", true
+				}
+				if f.Kind != "missing" {
+					f.Lines, f.NoNL = genLines()
+				}
+				c.Files = append(c.Files, f)
+			}
+		} else {
+			c.Lines, c.NoNL = genLines()
+		}
+		genFlags(t, &c, [9]int{3, 2, 1, 4, 0, 0, 1, 3, 1})
+		c.Dash = false
+		p := rapid.IntRange(0, len(c.Pre)).Draw(t, "at")
+		if p > 0 && c.Pre[p-1] == "--indent" {
+			p--
+		}
+		c.Pre = append(append(append([]string{}, c.Pre[:p]...), rapid.SampledFrom([]string{"-R", "--raw-input", "-R"}).Draw(t, "rawflag")), c.Pre[p:]...)
+		if rapid.IntRange(0, 3).Draw(t, "alg") == 0 {
+			algQuery(t, &c, bias{val: 1, dot: 6, err: 1, empty: 1, input: 4, arr: 2, cond: 1})
+		} else {
+			c.Text = rapid.SampledFrom([]string{`.`, `.`, `length`, `[inputs]`, `inputs`, `., input`, `utf8bytelength`, `[., length]`, `.[4090:4100]`,
+				`explode | length`, `[inputs | length]`, `input`, `try input catch "E"`, `ltrimstr("x")`, `[., input]`, `. as $a | input as $b | [$a, $b]`,
+				`reduce inputs as $l (""; . + $l) | length`, `[inputs] | map(.[:8])`, `ascii_downcase`, `tojson | length`}).Draw(t, "query")
+		}
+		if msg := do("raw-long", c); msg != "" {
+			t.Fatalf("%s", rec.Fail("raw-long", c, "%s", msg))
+		}
+	})
 
 	anyFlags := [9]int{2, 2, 1, 3, 1, 2, 3, 1, 1}
 
